@@ -436,6 +436,8 @@ def run(chk, tier):
                        loc=f"{h['loc']['f']}:{s.line}")
     chk.floor("pdu-budget", "cursor read sites in pdu::reader", n_sites, 60)
     chk.analysed["budget_sites"] = n_sites
+    from . import shared
+    shared.guard_tightness(chk, fx, "guards-exact")
     # no other panicking externals in the reader (MIR inventory)
     for f in d["fns"]:
         if not f["path"].startswith(f"{PDU}::reader::"):
